@@ -116,7 +116,8 @@ func c08StoreRace(c *Ctx) {
 
 // c08Redis: two proxies (each with its own memory cache and its own fake upstream) share one
 // second-level cache (fake redis). A fetches a key at t0; B is asked at 0.55 of the lifetime (8-10 s; early enough not to start a refresh) and
-// finds it in redis (promotion into B's memory cache: aged TTLs, no upstream contact); B is asked
+// finds it in redis (promotion into B's memory cache: aged TTLs, no upstream contact) and once more 400 ms later (answered
+// from B's memory cache: the TTLs still age from the original fetch); B is asked
 // again once the lifetime of the reply A fetched has elapsed (+3 s): that reply must not be
 // served any more, B has to go upstream. Also: memory entries stored with a store time in the past
 // (what a promotion does) expire at their expiry time, not one lifetime after the store.
@@ -183,6 +184,19 @@ func c08Redis(c *Ctx) {
 					return
 				}
 				c.Ev.Count("redis_promotions_checked_for_ageing", 1)
+				// ... and again 400 ms later: this answer comes from B's memory cache, where the promotion
+				// put the entry (still well before the refresh window); its age is the reply's, not the copy's
+				time.Sleep(400 * time.Millisecond)
+				again := h.query(b, []string{"tcp", "udp"}[ki%2], "", "", k.name, dns.TypeA, dns.ClassINET, "memory@B", "")
+				c.Ev.Eval(1)
+				if again.Err == "" && again.Serial == first.Serial {
+					L := (again.TSend - first.TRecv) / int64(time.Second)
+					if e := c08CheckAgeing(exp, again.Msg, uint32(max(L, 0))); e != "" {
+						c.Violation("ttl-too-large:redis-promoted:memory-copy", fmt.Sprintf("%s served by the second proxy from its memory cache (entry promoted from the shared cache 400 ms earlier) at least %d whole seconds after the fetch: %s", k.name, L, e), cs)
+						return
+					}
+					c.Ev.Count("redis_promoted_memory_copies_checked_for_ageing", 1)
+				}
 			}
 			// third probe: lifetime + 3 s after A received the reply (2 s clock granularity + 1 s, as in the other expiry verdicts)
 			time.Sleep(time.Duration(k.ttl)*time.Second + 3000*time.Millisecond - time.Duration(clock.Now()-first.TRecv))
